@@ -65,3 +65,13 @@ func HarnessPeerWith(log *zerolog.Logger, inbound bool, addr string, id int32) *
 	p.na = &wire.NetAddress{}
 	return p
 }
+
+// HarnessSyncCandidate returns a connected full-node peer whose version is known and whose best
+// height is lastBlock.
+func HarnessSyncCandidate(log *zerolog.Logger, id int32, lastBlock int32) *Peer {
+	p := HarnessPeerWith(log, false, "10.0.0.2:8333", id)
+	p.services = wire.SFNodeNetwork
+	p.lastBlock = lastBlock
+	p.startingHeight = lastBlock
+	return p
+}
